@@ -58,6 +58,11 @@ Definition kf18_own_name_mapped (m : mapping) (all : list sinfo) : bool := exist
 Definition c18_decl_ok (m : mapping) (names : list str) : bool :=
   forallb (fun kv => negb (mem (fst kv) names) && negb (mem (fst kv ++ L "Schema") names)) m.
 
+(* the frame clause on declarations (run-time oracle): the set of names exported with the table equals the
+   set exported without it - the table changes nothing it does not name, and it names no declaration *)
+Definition c18_decl_frame_ok (with_table without_table : list str) : bool :=
+  forallb (fun x => mem x without_table) with_table && forallb (fun x => mem x with_table) without_table.
+
 (* from Rust types, as the analysis hands them over *)
 Definition structs_of (l : list rty) : list tstruct :=
   flat_map (fun t => match parse_type_structure2 (tts t) with Some ts => [ts] | None => [] end) l.
